@@ -24,7 +24,7 @@ inductive Schema
   | seq (member : Schema)                                   -- List / Array
   | dict (policy : Policy) (names : List Str) (fields : List Schema)
   | date                                                    -- DateYYYYMMDD, generated members
-  | joined (sep : Str) (prune : Bool) (member : Kind)       -- JoinedString, static separator
+  | joined (sep : Str) (sp : Splitter) (prune : Bool) (member : Kind)   -- JoinedString
   deriving Inhabited
 
 inductive Elem
@@ -191,10 +191,10 @@ def setElem (E : Env) : Schema → Elem → Input → Except CRaise SetOut
         | _, .error r, _ => .error (.scalar r)
         | _, _, .error r => .error (.scalar r)
     | _ => .error .unmodelled
-  | .joined sep prune k, _, inp =>
+  | .joined sep sp prune k, _, inp =>
     let items : Except CRaise (List Native) := match inp with
       | .list xs => xs.mapM fun x => match x with | .leaf n => .ok n | _ => .error .unmodelled
-      | .leaf (.str s) => .ok ((splitStr sep s).map Native.str)     -- `value.split(self.separator)`
+      | .leaf (.str s) => .ok ((splitWith E.T sp sep s).map Native.str)   -- `separator_regex.split(value)` / `value.split(self.separator)`
       | .dict ps => .ok (ps.map (·.1))                               -- `list(value)`
       | .leaf _ => .error .typeError                                 -- `list(value)` raises TypeError
     match items with
